@@ -16,9 +16,8 @@ bad = 0
 for f in sorted(glob.glob('evidence/C*.json')):
     d = json.load(open(f))
     jsonschema.validate(d, sch)
-    v = json.dumps(d)
-    if '"VIOLATED"' in v or '"INCONCLUSIVE"' in v:
-        print("evidence not clean:", f); bad += 1
+    if d.get("violations") or (d.get("coverage") or {}).get("verdict") not in (None, "HELD-ON-OBSERVED"):
+        print("evidence not clean:", f, d.get("violations"), (d.get("coverage") or {}).get("verdict")); bad += 1
 print("manifest + %d evidence files valid; not clean: %d" % (len(glob.glob('evidence/C*.json')), bad))
 sys.exit(1 if bad else 0)
 PY
